@@ -105,6 +105,7 @@ MinColliders(n) == {m \in Colliders(n) : ~Decomposable(n, m)}
 (***************************************************************************)
 TitleAlphabet ==
   {W("a"), W("B"), At("dg", "1"), SP, US, Rep("nal"), Rep("sym"),
+   Rep("nx"), Rep("nd"),     \* alphanumeric for str.isalnum / \w, yet no identifier characters (superscripts, other digits)
    W("none"), W("true"), W("string"), W("String"), W("anyOf"), W("object"), W("any"),
    W("property"), W("not")}
   \cup (IF Rich THEN {W("false"), W("list"), W("union"), W("maybe"), W("element"), W("nothing"),
